@@ -66,7 +66,8 @@ def _c20():
 def _c01():
     import parser as pk
     import charparser as ck
-    return {"builders": [pk.build, ck.build], "level": "other", "explanation": "lexer/cursor kernel",
+    import grammar as gk
+    return {"builders": [pk.build, ck.build, gk.build], "level": "other", "explanation": "lexer/cursor kernel and the grammar functions above it",
             "replay_fn": pk.replay_fn, "replay_file_fn": pk.replay_file}
 
 
